@@ -20,7 +20,7 @@ func init() {
 		Title: "generated resource paths: writer and reader are dual, root and segments agree",
 		Text: "For every generated resource-path struct: ResourcePath() writes, after each constant segment, the key fields in declaration order; UnmarshalResourcePath reads the same fields from segments[0..n-1] in the same order with the dual codec; " +
 			"RootResource() returns the first constant path segment; RegisterResource's ResourcePathSegment list names the same segments in order, with isCollection exactly where a key follows.",
-		Props: []string{"C02", "C05"},
+		Props: []string{"C02", "C05", "C15"},
 		Floor: map[string]int{"corpus": 4},
 		Run:   runR023,
 	})
